@@ -1015,7 +1015,14 @@ class C19(Base):
                         else:
                             e.post_open = rng.choice(["", " "]) + txt
                         label = "history+shared-tag-line"
-            hists.append(self.mk_history(gen.render(items, final_nl=rng.random() < 0.8), self.chain(rng), label))
+            doc = gen.render(items, final_nl=rng.random() < 0.8)
+            if i % 6 == 0 and i % 5 == 0:
+                # a stray opening tag (no closing tag of its own) in front of the document
+                stray = gen.El(rng.choice(["tl", "rm"]), True)
+                stray.to, stray.name = rng.choice(TIMES), rng.choice(NAMES)
+                doc = gen.Spelling().open_tag(stray) + "\n" + doc
+                label += "+stray-opener"
+            hists.append(self.mk_history(doc, self.chain(rng), label))
             if len(hists) >= 2000:
                 yield from self.build(hists)
                 hists = []
@@ -1097,6 +1104,36 @@ class C19(Base):
                                     return True
                             break
         return False
+
+    def region_wrapper_tag_and_stray_opener(self, case, verdict):
+        """idempotence: some unwrap-block has a wrapper line that carries a tag of another element, and some opening tag of
+        a registered name has no closing tag of its own (stack rule)"""
+        if verdict.get("fail") != "C19-idempotence":
+            return False
+        src = case.meta["src"]
+        names = set()
+        for c in case.meta["cfgs"]:
+            names.update([c["tl"], c["rm"]])
+        lines = src.split("\n")
+        stack, wrapper_tag = [], False
+        for ln, l in enumerate(lines):
+            for m in self.TAG_RE.finditer(l):
+                closing, name, attrs = m.group(1), m.group(2), m.group(3)
+                if not closing:
+                    stack.append((name, ln, any(w == "unwrap-block" or w.startswith("unwrap-block=") for w in attrs.split())))
+                else:
+                    for k in range(len(stack) - 1, -1, -1):
+                        if stack[k][0] == name:
+                            _, oln, unwrap = stack[k]
+                            # openers above the matched one are demoted to text; they are not stray "registered" openers
+                            # unless they stay unmatched to the end - handled below by what is left on the stack
+                            del stack[k + 1:]
+                            stack.pop()
+                            if unwrap and ln - oln >= 3 and ("<" in lines[oln + 1] or "<" in lines[ln - 1]):
+                                wrapper_tag = True
+                            break
+        stray = any(n in names for (n, _, _) in stack)
+        return wrapper_tag and stray
 
     def oracle(self, case, impl, spec):
         ds = case.meta["_docs"]
